@@ -355,8 +355,31 @@ impl Property for C03 {
                 gen_val(&mut t, &o2, 0)
             }
         };
+        self.check_value(fmt, &v)
+    }
+    fn run_text(&mut self, text: &str) -> Outcome {
+        if self.py.is_none() {
+            self.py = Some(PyOracle::start().unwrap_or_else(|e| panic!("harness: cannot start decoder service: {}", e)));
+        }
+        let j: serde_json::Value = serde_json::from_str(text).expect("replay text is JSON");
+        let fmt = j.get("fmt").and_then(|f| f.as_str()).expect("fmt").to_string();
+        let v = GVal::from_json(j.get("value").expect("value")).expect("value encoding");
+        let fmt: &'static str = match fmt.as_str() {
+            "json" => "json",
+            "yaml" => "yaml",
+            "toml" => "toml",
+            _ => "yamlmulti",
+        };
+        self.check_value(fmt, &v)
+    }
+}
+
+impl C03 {
+    fn check_value(&mut self, fmt: &'static str, v: &GVal) -> Outcome {
+        let v = v.clone();
         let rendered = format!("{} <- {}", fmt, v.show());
         let mut o = Outcome::pass(rendered.clone());
+        o.portable = Some(serde_json::json!({"fmt": fmt, "value": v.to_json()}).to_string());
         o.key = fnv(rendered.as_bytes());
         o.class(fmt);
         let expect = expectation(fmt, &v);
